@@ -232,7 +232,7 @@ func compareOutcome(res ech.ResolveResult, err error, want dnsfx.RefOutcome) str
 func TestC14(t *testing.T) {
 	rec := ev.Get("C14")
 	rec.Rule("random zones served by a loopback DoH server that answers like a recursive resolver (CNAME chain first, packets built with dnsmessage): host with A/AAAA (directly or through CNAME chains), at the RFC 9460 query name either nothing, NXDOMAIN, a service RRset (1..4 records, equal/distinct priorities, targets with/without addresses, ports, ALPN, ECH markers), or an alias chain of 0..8 links (loops, self alias, alias to '.', alias to a name with only addresses) optionally behind a CNAME; forced RCODEs 1..5 and 6..23 and HTTP 4xx on single (name,type) pairs; poison records (HTTPS with attacker ECH, A, AAAA, CNAME) owned by an unrelated name in every answer. Name forms: host, host:port (0/80/443/other), scheme://host[:port][/path] (http/https/other, mixed case), IP literals, localhost, over-long hosts, labels, schemes and constructed names. Oracle: reference resolver over the zone (RFC 9460 2.3/2.4.2/3), poison markers absent, query log (types, RFC-conformant names from the allowed set, count bound). distinct = (zone shape, name form); non-trivial = zone has HTTPS records or a CNAME for the queried name")
-	rec.Mandatory("longest_valid_host", "alias_loop", "alias_chain_gt_limit", "poison", "rcode:1", "rcode:2", "rcode:3", "rcode:4", "rcode:5", "port_non443_other_scheme", "overlong_scheme", "overlong_constructed", "overlong_host", "ip_literal", "service_with_targets", "cname_to_https", "nxdomain_https", "service_targets_origin_host", "host_with_trailing_dot", "repeated_on_caching_resolver", "answer_gt_32k")
+	rec.Mandatory("longest_valid_host", "alias_loop", "alias_chain_gt_limit", "poison", "rcode:1", "rcode:2", "rcode:3", "rcode:4", "rcode:5", "port_non443_other_scheme", "overlong_scheme", "overlong_constructed", "overlong_host", "ip_literal", "service_with_targets", "cname_to_https", "nxdomain_https", "service_targets_origin_host", "host_with_trailing_dot", "repeated_on_caching_resolver", "answer_gt_32k", "cname_loop_in_answer")
 	rapid.Check(t, func(t *rapid.T) {
 		var cl []string
 		host := "svc.example"
@@ -304,13 +304,21 @@ func TestC14(t *testing.T) {
 					z.CNAME[cur] = dnsfx.ZRec{TTL: 60, CNAME: next}
 					cur = next
 				}
-				g.addrs(cur, "hostaddr", 0)
+				if rapid.IntRange(0, 5).Draw(t, "host_cname_loop") == 0 {
+					// a misconfigured zone: the chain leads back into itself, and the recursive
+					// resolver hands over the CNAME records it walked, with no data behind them
+					back := []string{host, cur}[rapid.IntRange(0, 1).Draw(t, "host_cname_loop_to")]
+					z.CNAME[cur] = dnsfx.ZRec{TTL: 60, CNAME: back}
+					cl = append(cl, "cname_loop_in_answer")
+				} else {
+					g.addrs(cur, "hostaddr", 0)
+				}
 				cl = append(cl, "cname_to_address")
 			} else {
 				g.addrs(host, "hostaddr", 0)
 			}
 			if g.huge {
-				cl = append(cl, "answer_gt_32k")
+				cl = append(cl, "answer_gt_32k", "cname_loop_in_answer")
 			}
 			g.addrs("t1.example", "t1", 1)
 			if rapid.Bool().Draw(t, "t2_has") {
@@ -434,7 +442,9 @@ func TestC14(t *testing.T) {
 			}
 			ctx, cancel := context.WithTimeout(context.Background(), 30*time.Second)
 			defer cancel()
-			rerr = guard(func() error { var e error; res, e = r.Resolve(ctx, input); return e })
+			watch("C14", map[string]any{"input": input, "zone": z.Describe()}, func() {
+				rerr = guard(func() error { var e error; res, e = r.Resolve(ctx, input); return e })
+			})
 			log = srv.TakeLog()
 			if repeatCached {
 				// the zone does not change and no time passes: asking again (answers and
